@@ -482,6 +482,7 @@ func (e *Exec) unop(f *frame, x *ssa.UnOp, h *Heap, g string) (*Heap, string) {
 		a := e.addrOf(v)
 		e.checkNonNil(f, a, &g, x)
 		e.guardedAccess(f, a, h, g, x, false)
+		e.heapInv(a, h)
 		key := a.Ref + "|" + a.Comp + "|" + pathKey(a.Path)
 		term := e.load(h, a)
 		out := Val{T: e.named("ld", x.Type(), term)}
@@ -905,4 +906,29 @@ func (e *Exec) mathBinop(f *frame, x *ssa.BinOp, a, b Val, g *string) Val {
 		out.I = out.T
 	}
 	return out
+}
+
+// heapInv assumes the trusted invariant of a library object the first time one of its fields is read.
+func (e *Exec) heapInv(a *Addr, h *Heap) {
+	if e.pure > 0 || e.specDepth > 0 || !strings.HasPrefix(a.Comp, "F|") {
+		return
+	}
+	parts := strings.Split(a.Comp, "|")
+	fs := e.eng.specs["heapinv:"+parts[1]]
+	if fs == nil {
+		return
+	}
+	if e.heapInvDone == nil {
+		e.heapInvDone = map[string]bool{}
+	}
+	if e.heapInvDone[a.Ref] {
+		return
+	}
+	e.heapInvDone[a.Ref] = true
+	for _, c := range fs.Clauses {
+		sf := e.eng.ld.specFunc(fs, c)
+		t := e.evalSpec(sf, []Val{{T: a.Ref, Typ: sf.Params[0].Type()}}, h, nil)
+		e.s.assert(implies(not(eq(a.Ref, "null")), t))
+		e.eng.assumes["invariant of every "+parts[1]+" object assumed: "+c.Text] = true
+	}
 }
